@@ -483,8 +483,8 @@ class Model(object):
         for equation in self.equations:
             lhs = equation.lhs
 
-            # for each of the symbols or derivatives on the rhs of the equation
-            for rhs in self.find_variables_and_derivatives([equation.rhs]):
+            # for each of the symbols or derivatives on the rhs of the equation (a set: walked in order of name)
+            for rhs in sorted(self.find_variables_and_derivatives([equation.rhs]), key=str):
 
                 if rhs in graph.nodes:
                     # If the symbol maps to a node in the graph just add the dependency edge
